@@ -247,6 +247,13 @@ fn features(p: &str) -> Features {
                         if c[i + 1..].contains(&'-') {
                             f.excluded.get_or_insert("unterminated '[' followed by '-' (glibc reads an unfinished range)");
                         }
+                        // glibc lets a backslash quote inside a bracket expression: "\[:alpha:]" is
+                        // then no class and a later ']' closes what POSIX reads as unterminated
+                        if let Some(b) = c[i + 1..].iter().position(|ch| *ch == '\\') {
+                            if c[i + 1 + b..].contains(&']') {
+                                f.excluded.get_or_insert("backslash inside bracket expression");
+                            }
+                        }
                         i += 1;
                     }
                 }
@@ -308,6 +315,26 @@ fn subject_table() -> Vec<String> {
     })
 }
 
+/// A listed finding of its own: under case folding the regex engine lets one bracket expression match
+/// the two letters that some single character folds to ("ff" for U+FB00, "ss" for U+00DF, "st",
+/// "fi", "fl", ...).  A wrong match is put down to that when the subject holds such a pair, fnmatch
+/// matches once the pair is one letter, and find's matcher matches the subject with the pair
+/// replaced by the character itself.
+fn multichar_fold_explains(pattern: &str, subject: &str) -> bool {
+    const FOLDS: &[(&str, &str)] = &[("ffi", "\u{fb03}"), ("ffl", "\u{fb04}"), ("ff", "\u{fb00}"), ("fi", "\u{fb01}"), ("fl", "\u{fb02}"), ("st", "\u{fb06}"), ("ss", "\u{df}")];
+    let lower = subject.to_ascii_lowercase();
+    for (pair, single) in FOLDS {
+        for (at, _) in lower.match_indices(pair) {
+            let collapsed = format!("{}{}{}", &subject[..at], &pair[..1], &subject[at + pair.len()..]);
+            let folded = format!("{}{}{}", &subject[..at], single, &subject[at + pair.len()..]);
+            if fnm(pattern, &collapsed, true) == Some(true) && crate::engine::proc::catch(|| glob_match_many(pattern, &[folded.as_str()], true)).ok().map_or(false, |g| g == [true]) {
+                return true;
+            }
+        }
+    }
+    false
+}
+
 fn compare(pattern: &str, subjects: &[String]) -> Outcome {
     let f = features(pattern);
     if let Some(why) = f.excluded {
@@ -347,6 +374,9 @@ fn compare(pattern: &str, subjects: &[String]) -> Outcome {
                     if let Some(e) = glob_match_error(pattern, s, casefold) {
                         return fail("C12:glob-engine-gives-up:missed", format!("pattern {pattern:?} subject {s:?} caseless={casefold}: fnmatch says match; the engine reports {e:?} and the subject is reported as not matching"));
                     }
+                }
+                if casefold && !want && multichar_fold_explains(pattern, s) {
+                    return fail("C12:caseless:multi-character-case-fold:matched-wrongly", format!("pattern {pattern:?} subject {s:?} caseless=true: fnmatch says no match, find's matcher says match (two letters taken as the folding of one character)"));
                 }
                 let kind = classify(pattern, s, want);
                 return fail(
@@ -689,6 +719,7 @@ fn check_e2e(ctx: &mut Ctx, c: &E2eCase) -> Outcome {
         return Pass::discard("case folding combined with [:upper:]/[:lower:]");
     }
     let mut want: Vec<String> = vec![];
+    let mut subject_of: std::collections::HashMap<String, String> = Default::default();
     let mut undecided = false;
     let mut all: Vec<(String, Option<String>)> = vec![("".to_string(), None)];
     all.extend(entries.iter().cloned());
@@ -700,6 +731,7 @@ fn check_e2e(ctx: &mut Ctx, c: &E2eCase) -> Outcome {
             _ => Some(path.clone()),
         };
         let Some(s) = subject else { continue };
+        subject_of.insert(path.clone(), s.clone());
         if casefold && !s.is_ascii() {
             undecided = true;
             continue;
@@ -723,6 +755,9 @@ fn check_e2e(ctx: &mut Ctx, c: &E2eCase) -> Outcome {
     if got != want || o.status != 0 {
         let missing: Vec<&String> = want.iter().filter(|w| !got.contains(w)).collect();
         let extra: Vec<&String> = got.iter().filter(|w| !want.contains(w)).collect();
+        if casefold && missing.is_empty() && o.status == 0 && extra.iter().all(|e| subject_of.get(*e).map_or(false, |s| multichar_fold_explains(&c.pattern, s))) {
+            return fail("C12:caseless:multi-character-case-fold:matched-wrongly", format!("find c/d {} {:?} -print0\nselected but fnmatch says no: {extra:?} (two letters taken as the folding of one character)", c.test, c.pattern));
+        }
         let probe = missing.first().or(extra.first()).map(|s| s.to_string()).unwrap_or_default();
         let kind = classify(&c.pattern, &probe, !missing.is_empty());
         return fail(format!("C12:e2e:{}:{kind}", c.test), format!("find c/d {} {:?} -print0\nexit {} stderr {:?}\nselected but fnmatch says no: {extra:?}\nnot selected but fnmatch says yes: {missing:?}", c.test, c.pattern, o.status, lossy(&o.stderr)));
